@@ -273,6 +273,10 @@ func (ev *Eval) rv(v EVal) []string {
 		for i, t := range terms {
 			if i < len(ls) && !isSimpleTerm(t) {
 				named[i] = ev.vc.define("ld", ls[i].Sort.SMT(), t)
+				if ev.vc.root().ldDefs == nil {
+					ev.vc.root().ldDefs = map[string]string{}
+				}
+				ev.vc.root().ldDefs[named[i]] = t
 			} else {
 				named[i] = t
 			}
@@ -763,6 +767,8 @@ func (ev *Eval) expr(e Expr) (EVal, error) {
 			return EVal{}, err
 		}
 		return bval(f), nil
+	case *ESum:
+		return ev.sumExpr(x)
 	case *ECond:
 		c, err := ev.formula(x.C, skNone)
 		if err != nil {
